@@ -4,8 +4,9 @@
    Part 1 (INIT InitGrid / InitRandom / InitExh; C40, C41).  Three tables
         P(id, x)            C(id, y, pid -> P.id NULL-able)            G(id, z, cid -> C.id NULL-able)
    NULL is 0, values are 1..MaxV.  A data set `ds` is a record of functions (px, cp, cy, gc, gz); the mapped classes have
-        P.children  = the C rows whose pid is the parent, ordered by C.id        C.parent = the P row of pid (or None)
-        C.gs        = the G rows whose cid is the child, ordered by G.id
+        P.children  = the C rows whose pid is the parent, ordered by C.id DESCENDING      C.parent = the P row of pid (or None)
+        C.gs        = the G rows whose cid is the child, ordered by (G.z, G.id), NULLs first
+   (neither order is the order in which the tables happen to store the rows: a loader that forgets the ORDER BY shows)
    A query `q` is a record of a small grammar (root entity, WHERE form, JOIN form, what is selected, DISTINCT, ORDER BY, LIMIT, OFFSET).
    Eval(q) DEFINES the result by relational algebra over the data set - selection under SQL's three-valued logic, (outer) join,
    projection, duplicate elimination, grouping, ordered slice - with no reference to how an ORM would compute it.  The expected
@@ -58,8 +59,13 @@ GKids(c) == {g \in GIds : ds.gc[g] = c}
 Asc(S) == [i \in 1..Cardinality(S) |-> CHOOSE x \in S : Cardinality({y \in S : y < x}) = i - 1]
 \* ---- the object graph of an entity: a function of the data set alone
 GraphG(g) == [id |-> g, z |-> ds.gz[g], cid |-> ds.gc[g]]
-GraphC(c) == [id |-> c, y |-> ds.cy[c], pid |-> ds.cp[c], gs |-> [i \in 1..Cardinality(GKids(c)) |-> GraphG(Asc(GKids(c))[i])]]
-GraphP(p) == [id |-> p, x |-> ds.px[p], cs |-> [i \in 1..Cardinality(Kids(p)) |-> GraphC(Asc(Kids(p))[i])]]
+Dsc(S) == [i \in 1..Cardinality(S) |-> Asc(S)[Cardinality(S) + 1 - i]]
+LexLt(a, b) == \E i \in 1..Len(a) : a[i] < b[i] /\ \A j \in 1..(i - 1) : a[j] = b[j]
+\* C.gs: ORDER BY g.z, g.id  (NULL = 0 sorts first, as in SQLite)
+GsOrder(c) == LET S == GKids(c) IN
+              [i \in 1..Cardinality(S) |-> CHOOSE g \in S : Cardinality({h \in S : LexLt(<<ds.gz[h], h>>, <<ds.gz[g], g>>)}) = i - 1]
+GraphC(c) == [id |-> c, y |-> ds.cy[c], pid |-> ds.cp[c], gs |-> [i \in 1..Cardinality(GKids(c)) |-> GraphG(GsOrder(c)[i])]]
+GraphP(p) == [id |-> p, x |-> ds.px[p], cs |-> [i \in 1..Cardinality(Kids(p)) |-> GraphC(Dsc(Kids(p))[i])]]
 
 \* ================================================================ the query grammar
 \*   root  "P" | "C"                       the class whose rows the query ranges over ("down" collection: P.children / C.gs)
@@ -286,15 +292,15 @@ GroupOK == q.sel \in {"grp", "entgrp"} =>
       Sum(s) == IF s = <<>> THEN 0 ELSE Head(s)[2] + Sum(Tail(s)) IN
   /\ {full[i][1] : i \in 1..Len(full)} = {r[1] : r \in S} /\ Len(full) = Cardinality({r[1] : r \in S})
   /\ Sum(full) = Cardinality({r \in S : r[2] # 0})
-\* the object graph partitions the rows: every child with a parent is in exactly that parent's collection, ascending by id
+\* the object graph partitions the rows: every child with a parent is in exactly that parent's collection, in the relationship's order
 GraphOK ==
   /\ \A c \in CIds : ds.cp[c] # Null =>
         \A p \in PIds : (\E i \in 1..Len(out.pgraph[p].cs) : out.pgraph[p].cs[i].id = c) <=> p = ds.cp[c]
   /\ \A p \in PIds : LET cs == out.pgraph[p].cs IN
-        /\ \A i \in 1..(Len(cs) - 1) : cs[i].id < cs[i + 1].id
+        /\ \A i \in 1..(Len(cs) - 1) : cs[i].id > cs[i + 1].id
         /\ \A i \in 1..Len(cs) : cs[i].pid = p /\ cs[i] = out.cgraph[cs[i].id]
   /\ \A c \in CIds : LET gs == out.cgraph[c].gs IN
-        /\ \A i \in 1..(Len(gs) - 1) : gs[i].id < gs[i + 1].id
+        /\ \A i \in 1..(Len(gs) - 1) : gs[i].z < gs[i + 1].z \/ (gs[i].z = gs[i + 1].z /\ gs[i].id < gs[i + 1].id)
         /\ \A i \in 1..Len(gs) : gs[i].cid = c
         /\ Len(gs) = Cardinality({g \in GIds : ds.gc[g] = c})
 Theorems == LimitIsSlice /\ OrderOK /\ AnyIsSemiJoin /\ SetOpsOK /\ HasIsJoin /\ JoinOK /\ ThreeValued /\ DistinctOK /\ GroupOK /\ GraphOK
@@ -366,12 +372,13 @@ RandomHQ(kk) == [at |-> RandomElement({"A", "B1", "B2", "C1", "C2"}), flt |-> Ra
                  lim |-> Pick(LimW), off |-> Pick(OffW), via |-> RandomElement({"direct", "jot", "aot", "items"})]
 InitHier == /\ k \in 1..NQ /\ RandomHDs /\ q = HNorm(ds, RandomHQ(k)) /\ HFinish
 \* systematic: every shape x {single, joined [, mixed]} x every class queried x every via x every filter, unsliced, with random rows
-InitHierGrid == /\ k \in 1..K /\ (GridKeep >= 100 \/ RandomElement(1..100) <= GridKeep)
+InitHierGrid == /\ k \in 1..K
                 /\ \E h \in HShapes : \E tb \in TabChoices(h) : \E nn \in {Pick(Sizes(NH))} : \E nh \in {RandomElement(1..2)} :
                    \E raw \in {RandomElement([1..nn -> HRowSpace(h, nh)])} :
                      ds = [cls |-> h.cls, c2par |-> h.c2par, tabs |-> tb, n |-> nn, nh |-> nh, rows |-> [i \in 1..nn |-> HNormRow(h, raw[i])]]
                 /\ q \in {HNorm(ds, r) : r \in [at : ds.cls, flt : {"none", "a", "sub"}, fc : ds.cls \ {"A"}, fv : {1}, ord : {"id"},
                                                lim : {-1}, off : {-1}, via : {"direct", "jot", "aot", "items"}]}
+                /\ (GridKeep >= 100 \/ RandomElement(1..100) <= GridKeep)
                 /\ HFinish
 
 InitPart2 == InitHierGrid \/ InitHier
